@@ -16,3 +16,64 @@ Definition enc_elev (nV nE nT m nI : Z) : list Z :=
   let n := Z.to_nat in
   map Z.of_nat (flat_map (edge_ids (n nV) (n m)) (seq 0 (n nE)) ++ flat_map (edge_ids_right (n nV) (n m)) (seq 0 (n nE))
                 ++ flat_map (interior_ids (n nV) (n nE) (n m) (n nI)) (seq 0 (n nT))).
+
+(* ------------------------------------------------------------------------------------------------------------------
+   Connectivity of the elevated mesh.  create_higher_order_mesh_from_simplex_mesh builds it by a sequence of functional
+   array updates conns.at[t, positions].set(values): (1) vertex ids at basis.vertexNodes, (2) for every row e of
+   create_edges the edge's ids at basis.faceNodes[sideLeft][interiorNodes1d] of the left element and, flipped, at
+   basis.faceNodes[sideRight][interiorNodes1d] of the right element, (3) interior ids at basis.interiorNodes.
+   The model is the log of these writes in program order; an entry of the result is the LAST value written to it. *)
+From OV.model Require Import M_C13_Edges.
+
+(* reference element tables: vertexNodes, faceNodes[s][1:-1] for s = 0,1,2, interiorNodes *)
+Record pelem := mkPE { pe_n : nat; pe_vertex : list nat; pe_m0 : list nat; pe_m1 : list nat; pe_m2 : list nat; pe_interior : list nat }.
+Definition pe_mid (pe : pelem) (s : nat) : list nat := match s with 0 => pe_m0 pe | 1 => pe_m1 pe | _ => pe_m2 pe end.
+Definition pe_positions (pe : pelem) : list nat := pe_vertex pe ++ pe_m0 pe ++ pe_m1 pe ++ pe_m2 pe ++ pe_interior pe.
+
+Definition ev := ((nat * nat) * nat)%type.             (* ((element, position), value) *)
+Definition writes_at (t : nat) (pos vals : list nat) : list ev := map (fun pv => ((t, fst pv), snd pv)) (combine pos vals).
+Fixpoint indexed_from {A} (i : nat) (l : list A) : list (nat * A) :=
+  match l with [] => [] | x :: r => (i, x) :: indexed_from (S i) r end.
+(* the (element, side) slots an edge row writes to; true = left (ids in order), false = right (ids flipped) *)
+Definition slots_of (r : edge_row) : list ((nat * nat) * bool) :=
+  ((e_tl r, e_pl r), true) :: match e_right r with Some tp => [(tp, false)] | None => [] end.
+Definition ev_slot (pe : pelem) (nV m e : nat) (sl : (nat * nat) * bool) : list ev :=
+  writes_at (fst (fst sl)) (pe_mid pe (snd (fst sl))) (if snd sl then edge_ids nV m e else rev (edge_ids nV m e)).
+Definition ev_vertex (pe : pelem) (conns : list (list nat)) : list ev :=
+  flat_map (fun tc => writes_at (fst tc) (pe_vertex pe) (snd tc)) (indexed_from 0 conns).
+Definition ev_edges (pe : pelem) (nV m : nat) (rows : list edge_row) : list ev :=
+  flat_map (fun er => flat_map (ev_slot pe nV m (fst er)) (slots_of (snd er))) (indexed_from 0 rows).
+Definition ev_interior (pe : pelem) (nV nE m nT : nat) : list ev :=
+  flat_map (fun t => writes_at t (pe_interior pe) (interior_ids nV nE m (length (pe_interior pe)) t)) (seq 0 nT).
+Definition events (pe : pelem) (nV m : nat) (conns : list (list nat)) : list ev :=
+  let rows := create_edges conns in
+  ev_vertex pe conns ++ ev_edges pe nV m rows ++ ev_interior pe nV (length rows) m (length conns).
+
+Definition key_eqb (a b : nat * nat) : bool := (fst a =? fst b) && (snd a =? snd b).
+(* last write wins *)
+Fixpoint lookup (W : list ev) (k : nat * nat) : option nat :=
+  match W with
+  | [] => None
+  | (k', v) :: r => match lookup r k with Some x => Some x | None => if key_eqb k k' then Some v else None end
+  end.
+Definition elevated (pe : pelem) (nV m : nat) (conns : list (list nat)) : list (list nat) :=
+  let W := events pe nV m conns in
+  map (fun t => map (fun pos => match lookup W (t, pos) with Some v => v | None => 0 end) (seq 0 (pe_n pe))) (seq 0 (length conns)).
+
+(* certificate for a reference element (K): the position tables partition 0..n-1 and have the right sizes *)
+Fixpoint nodupb (l : list nat) : bool := match l with [] => true | x :: r => negb (existsb (Nat.eqb x) r) && nodupb r end.
+Definition pe_okb (pe : pelem) (m : nat) : bool :=
+  (length (pe_vertex pe) =? 3) && (length (pe_m0 pe) =? m) && (length (pe_m1 pe) =? m) && (length (pe_m2 pe) =? m)
+  && nodupb (pe_positions pe) && forallb (fun p => p <? pe_n pe) (pe_positions pe) && (length (pe_positions pe) =? pe_n pe).
+
+Definition mk_pe (n : Z) (v m0 m1 m2 i : list Z) : pelem :=
+  let f := map Z.to_nat in mkPE (Z.to_nat n) (f v) (f m0) (f m1) (f m2) (f i).
+Definition enc_elevated (pe : pelem) (nV m : Z) (conns : list (list Z)) : list Z :=
+  (if pe_okb pe (Z.to_nat m) then 1%Z else 0%Z)
+  :: map Z.of_nat (concat (elevated pe (Z.to_nat nV) (Z.to_nat m) (map (map Z.to_nat) conns))).
+
+(* certificates (K) evaluated on the implementation's tables: reference element partition, symmetry of the 1-D Lobatto nodes *)
+From Coq Require Import QArith Qabs.
+Definition pe_cert (pe : pelem) (m : Z) : list Z := [if pe_okb pe (Z.to_nat m) then 1%Z else 0%Z].
+Definition lobatto_sym_cert (nodes : list Q) (tol : Q) : list Z :=
+  [if forallb (fun p : Q * Q => Qle_bool (Qabs (fst p + snd p - 1)) tol) (combine nodes (rev nodes)) then 1%Z else 0%Z].
